@@ -100,45 +100,45 @@ type Qid struct {
 }
 
 type Stat struct {
-	Size                  uint16 // as found on the wire (decode only)
-	Type                  uint16
-	Dev                   uint32
-	Qid                   Qid
-	Mode, Atime, Mtime    uint32
-	Length                uint64
-	Name, Uid, Gid, Muid  string
-	Ext                   string
-	Nuid, Ngid, Nmuid     uint32
+	Size                 uint16 // as found on the wire (decode only)
+	Type                 uint16
+	Dev                  uint32
+	Qid                  Qid
+	Mode, Atime, Mtime   uint32
+	Length               uint64
+	Name, Uid, Gid, Muid string
+	Ext                  string
+	Nuid, Ngid, Nmuid    uint32
 }
 
 type Msg struct {
-	Size    uint32
+	Size     uint32
 	StatSize int // > 0: the stat record's inner size field is overwritten with StatSize-1 (hostile peers only)
-	Type    uint8
-	Tag     uint16
-	Msize   uint32
-	Version string
-	Fid     uint32
-	Afid    uint32
-	Newfid  uint32
-	Uname   string
-	Aname   string
-	Nuname  uint32
-	Ename   string
-	Errno   uint32
-	Oldtag  uint16
-	Wname   []string
-	Wqid    []Qid
-	Mode    uint8
-	Perm    uint32
-	Name    string
-	Ext     string
-	Qid     Qid
-	Iounit  uint32
-	Offset  uint64
-	Count   uint32
-	Data    []byte
-	Stat    Stat
+	Type     uint8
+	Tag      uint16
+	Msize    uint32
+	Version  string
+	Fid      uint32
+	Afid     uint32
+	Newfid   uint32
+	Uname    string
+	Aname    string
+	Nuname   uint32
+	Ename    string
+	Errno    uint32
+	Oldtag   uint16
+	Wname    []string
+	Wqid     []Qid
+	Mode     uint8
+	Perm     uint32
+	Name     string
+	Ext      string
+	Qid      Qid
+	Iounit   uint32
+	Offset   uint64
+	Count    uint32
+	Data     []byte
+	Stat     Stat
 }
 
 func (m *Msg) String() string {
